@@ -1,3 +1,19 @@
 import CaddyModel.C04.Props
 open CaddyModel.C04
-#print axioms placeholder_init
+#print axioms inv_reachable
+#print axioms one_live_value
+#print axioms ctor_starts_only_when_key_unheld
+#print axioms ctor_once_per_live_period
+#print axioms dtor_exactly_once_after_last_release
+#print axioms released_entry_destructed_at_quiescence
+#print axioms not_destructed_before_own_release
+#print axioms never_returns_destructed_lnRead
+#print axioms never_returns_destructed_lsRead
+#print axioms failed_acquisition_returns_no_value
+#print axioms failed_ctor_leaves_absent
+#print axioms failed_entry_is_inert
+#print axioms refs_eq_acq_minus_rel
+#print axioms references_report
+#print axioms references_exact_at_quiescence
+#print axioms delete_never_panics
+#print axioms references_partial
